@@ -1,7 +1,7 @@
 (* C16 proofs, part 2: the inductive invariant (ledger_inv) for ALL op lists, and its consequences:
    abort_releases_all at state level, stop_zero, restartable. *)
 From Coq Require Import List ZArith NArith Bool Arith Lia.
-From LTV.C16 Require Import ParamsGen Model Proofs.
+From LTV.C16 Require Import Model Proofs.
 Import ListNotations.
 Open Scope Z_scope.
 
@@ -88,10 +88,10 @@ Proof.
   unfold on_conn, seq2, tc_add, after_piece in *. destruct (is_conn r); cbn in *; exact H.
 Qed.
 
-Lemma good_hs_bytes : forall pa gpx n, good (hs_bytes_row pa gpx n).
-Proof. intros pa gpx n. unfold hs_bytes_row. unfold good. dcond; open_row; close_row. Qed.
-Lemma good_pex_enable : forall gpx, good (pex_enable_row gpx).
-Proof. intros gpx. unfold pex_enable_row. unfold good. dcond; open_row; close_row. Qed.
+Lemma good_hs_bytes : forall pa gpx mp n, good (hs_bytes_row pa gpx mp n).
+Proof. intros pa gpx mp n. unfold hs_bytes_row. unfold good. dcond; open_row; close_row. Qed.
+Lemma good_pex_enable : forall gpx mp, good (pex_enable_row gpx mp).
+Proof. intros gpx mp. unfold pex_enable_row. unfold good. dcond; open_row; close_row. Qed.
 Lemma good_hs_msg : forall sd fl m n len, good (on_hs (hs_msg sd fl m n len)).
 Proof.
   intros sd fl m n len. unfold on_hs, hs_msg, finish_hs, refuse_row, to_conn, good.
